@@ -153,35 +153,20 @@ Proof.
 Qed.
 
 (* ---------------- legal_match ---------------- *)
-Lemma strip_final_nl_spec : forall s w, strip_final_nl s = Some w -> s = w ++ [nl].
-Proof.
-  induction s as [|c s IH]; intros w H; [discriminate|].
-  cbn [strip_final_nl] in H. destruct s as [|d s'].
-  - destruct (N.eqb_spec c nl); [|discriminate]. inversion H. now subst.
-  - destruct (strip_final_nl (d :: s')) as [r'|] eqn:E; [|discriminate].
-    inversion H. subst w. cbn [app]. f_equal. now apply IH.
-Qed.
-
 Lemma all_legal_forall : forall p s, all_legal p s = true -> s <> [] /\ Forall (fun c => in_ranges (p_legal p) c = true) s.
 Proof.
   intros p [|c s] H; [discriminate|]. split; [discriminate|]. unfold all_legal in H.
   apply Forall_forall. now apply forallb_forall.
 Qed.
 
-(* every character of a legal-matching string is legal or the final newline; the first one is legal *)
+(* every character of a legal-matching string is legal *)
 Lemma legal_match_chars : forall p s, legal_match p s = true ->
   exists c r, s = c :: r /\ in_ranges (p_legal p) c = true /\
               Forall (fun x => in_ranges (p_legal p) x = true \/ x = nl) s.
 Proof.
-  intros p s H. unfold legal_match in H. apply orb_prop in H. destruct H as [H|H].
-  - apply all_legal_forall in H. destruct H as [Hne Hf]. destruct s as [|c r]; [contradiction|].
-    exists c, r. split; auto. split; [now inversion Hf|]. eapply Forall_impl; [|exact Hf]. cbn. auto.
-  - destruct (strip_final_nl s) as [w|] eqn:E; [|discriminate]. apply strip_final_nl_spec in E. subst s.
-    apply all_legal_forall in H. destruct H as [Hne Hf]. destruct w as [|c r]; [contradiction|].
-    exists c, (r ++ [nl]). split; auto. split; [now inversion Hf|].
-    apply Forall_app. split.
-    + eapply Forall_impl; [|exact Hf]. cbn. auto.
-    + constructor; auto.
+  intros p s H. unfold legal_match in H.
+  apply all_legal_forall in H. destruct H as [Hne Hf]. destruct s as [|c r]; [contradiction|].
+  exists c, r. split; auto. split; [now inversion Hf|]. eapply Forall_impl; [|exact Hf]. cbn. auto.
 Qed.
 
 (* ---------------- requires_quotes ---------------- *)
@@ -207,11 +192,6 @@ Lemma requires_quotes_not_legal : forall p v, v <> [] -> legal_match p v = false
 Proof.
   intros p v Hne Hl. unfold requires_quotes. destruct (mem_str _ _); auto. destruct v; [contradiction|].
   rewrite Hl. cbn. now rewrite orb_true_r.
-Qed.
-
-Lemma bare_nl_false_legal : forall p v, bare_nl p v = false -> requires_quotes p v = Ok false -> all_legal p v = true.
-Proof.
-  intros p v H Hq. unfold bare_nl in H. rewrite Hq in H. destruct (all_legal p v); auto.
 Qed.
 
 (* ---------------- white space ---------------- *)
@@ -355,47 +335,16 @@ Proof.
   apply mem_str_In in Ek. apply Hkw in Ek. apply mem_str_In in Ek. congruence.
 Qed.
 
-(* THE quoting theorem (guarded by the final-newline defect) *)
-Lemma quote_lexes_back_guarded : forall v, v <> [] -> bare_nl p v = false ->
+(* THE quoting theorem *)
+Lemma quote_lexes_back : forall v, v <> [] ->
   exists q, quote p v = Ok q /\ lex_sent b q = Some (stored p b v).
 Proof.
-  intros v Hne Hg. unfold quote, quote_force, stored.
+  intros v Hne. unfold quote, quote_force, stored.
   destruct (requires_quotes p v) as [[|]|] eqn:Hq.
   - eexists. split; [reflexivity|]. apply quote_identifier_lexes_back.
-  - eexists. split; [reflexivity|]. apply bare_lexes_back; auto. now apply bare_nl_false_legal.
+  - eexists. split; [reflexivity|]. apply bare_lexes_back; auto.
+    destruct (requires_quotes_false _ _ Hq) as (c & r & _ & _ & _ & Hlm & _). exact Hlm.
   - destruct v; [contradiction|]. exfalso. eapply requires_quotes_nonempty; eauto.
-Qed.
-
-(* ... and the guard is exact: no name of the excluded region reads back as itself *)
-Lemma fold_length : forall s, length (fold b s) = length s.
-Proof. intro s. unfold fold. destruct (b_fold b); auto; apply map_length. Qed.
-
-Lemma bare_nl_never_roundtrips : forall v, bare_nl p v = true ->
-  quote p v = Ok v /\ lex_sent b v <> Some v.
-Proof.
-  intros v H. unfold bare_nl in H. apply andb_prop in H. destruct H as [Hnl Hq].
-  apply negb_true_iff in Hnl. destruct (requires_quotes p v) as [[|]|] eqn:Hrq; try discriminate. clear Hq.
-  split; [unfold quote, quote_force; now rewrite Hrq|].
-  destruct wf_facts as (_ & _ & Hli & _ & _ & Hlp & Hws & _ & _ & _ & _ & _ & _ & _).
-  destruct compat_facts as (Hbi & _).
-  destruct (requires_quotes_false _ _ Hrq) as (c0 & r0 & _ & _ & _ & Hlm & _).
-  unfold legal_match in Hlm. rewrite Hnl in Hlm. cbn [orb] in Hlm.
-  destruct (strip_final_nl v) as [w|] eqn:Es; [|discriminate]. apply strip_final_nl_spec in Es. subst v.
-  apply all_legal_forall in Hlm. destruct Hlm as [Hne Hall].
-  assert (Hd : driver b (w ++ [nl]) = Some (w ++ [nl])).
-  { unfold driver. destruct (b_pct b); auto. apply undouble_strict_notin. intro Hin.
-    apply in_app_or in Hin. destruct Hin as [Hin|[Hin|[]]]; [|discriminate].
-    rewrite Forall_forall in Hall. specialize (Hall _ Hin). congruence. }
-  unfold lex_sent. rewrite Hd. unfold lex_ident. rewrite trim_ws_final_ws; auto.
-  2:{ eapply Forall_impl; [|exact Hall]. cbn. intros a Ha. destruct (is_ws a) eqn:E; auto.
-      rewrite (Hws a E) in Ha. discriminate. }
-  destruct w as [|c r]; [contradiction|].
-  destruct (N.eqb_spec c (b_iq b)) as [E|E].
-  { rewrite Hbi in E. subst c. inversion Hall. congruence. }
-  destruct (in_ranges (b_start b) c && forallb (in_ranges (b_cont b)) r); [|discriminate].
-  destruct (mem_str _ _); [discriminate|]. intro E2. inversion E2 as [E3].
-  apply (f_equal (@length N)) in E3. rewrite fold_length in E3. cbn [length app] in E3.
-  rewrite app_length in E3. cbn [length] in E3. lia.
 Qed.
 
 (* whenever quoting is skipped the backend's folding does not change the name (lower/none folding) *)
@@ -778,14 +727,14 @@ Proof.
   repeat constructor; auto.
 Qed.
 (* ... and the backend reads each of the two components back as the stored name *)
-Lemma prepared_index_name_lexes_back_guarded : forall p b, wf_prep p = true -> compat p b = true ->
-  forall s i, s <> [] -> i <> [] -> bare_nl p s = false -> bare_nl p i = false ->
+Lemma prepared_index_name_lexes_back : forall p b, wf_prep p = true -> compat p b = true ->
+  forall s i, s <> [] -> i <> [] ->
   exists qs qi, prepared_index_name p true (Some s) i = Ok (qs ++ dot :: qi) /\
                 lex_sent b qs = Some (stored p b s) /\ lex_sent b qi = Some (stored p b i).
 Proof.
-  intros p b Hw Hc s i Hs Hi Hgs Hgi.
-  destruct (quote_lexes_back_guarded p b Hw Hc s Hs Hgs) as (qs & Hqs & Hls).
-  destruct (quote_lexes_back_guarded p b Hw Hc i Hi Hgi) as (qi & Hqi & Hli).
+  intros p b Hw Hc s i Hs Hi.
+  destruct (quote_lexes_back p b Hw Hc s Hs) as (qs & Hqs & Hls).
+  destruct (quote_lexes_back p b Hw Hc i Hi) as (qi & Hqi & Hli).
   exists qs, qi. split; auto. unfold prepared_index_name, format_index. destruct s as [|c s']; [contradiction|].
   now rewrite Hqs, Hqi.
 Qed.
